@@ -33,10 +33,10 @@ func costCall(profile string, v string) string {
 }
 
 type pipeGen struct {
-	r        *rand.Rand
-	features map[string]int
+	r         *rand.Rand
+	features  map[string]int
 	parStages int
-	sides    int // closure-calling stages other than the parallel-capable ones
+	sides     int // closure-calling stages other than the parallel-capable ones
 }
 
 // stage returns a method-call suffix; `cost` = profile for parallel-capable closures
@@ -102,6 +102,18 @@ func (g *pipeGen) stage(cost string) string {
 			40+g.r.Intn(100), costCall(cost, "e"), 13+g.r.Intn(30), 40+g.r.Intn(100), costCall(cost, "v"), 13+g.r.Intn(40))
 	default:
 		g.features["concat"]++
+		// the later stages apply to the concatenation (replaceList), whose operands hold closure-calling stages
+		switch g.r.Intn(4) {
+		case 0:
+			g.sides++
+			return fmt.Sprintf(".replaceList(q -> q + numbers(%d).number((n, e) -> let u = n %% 7; u + e))", 5+g.r.Intn(60))
+		case 1:
+			g.sides++
+			return fmt.Sprintf(".replaceList(q -> numbers(%d).iir(e -> e, (e, l) -> let h = l %% 1000; h + e) + q)", 5+g.r.Intn(60))
+		case 2:
+			g.sides++
+			return ".replaceList(q -> q.combine((p, r) -> let d = r - p; d) + q.number((n, e) -> let u = n + e; u))"
+		}
 		return fmt.Sprintf(" + numbers(%d).map(e -> e + 1)", g.r.Intn(20))
 	}
 }
@@ -145,16 +157,18 @@ func (g *pipeGen) terminal() string {
 }
 
 type pipeCase struct {
-	tmplStages []string // with profile placeholders resolved per variant below
-	fast, prof *workerCase
-	profile    string
-	gmp        int
-	par        bool
-	sides      int
+	tmplStages  []string // with profile placeholders resolved per variant below
+	fast, prof  *workerCase
+	profile     string
+	gmp         int
+	par         bool
+	sides       int
+	multi       bool // multiUse against the direct application of its consumers (always concurrent)
+	multiMisuse bool // a consumer uses its list more than once: multiUse must answer with an error
 }
 
 func runC06(c *Ctx) {
-	c.rule = "pipelines numbers(N) -> 1..6 lazy stages (map, accept, combine, combine3, combineN, iir, iirCombine, number, compact, merge, top, skip, fsm, + concatenation; closures with local lets) -> terminal (reduce, mapReduce, sum, size, string, first/top, last, minMax, visit, order, groupByInt, multiUse), N in 0..2000, evaluated in a -race worker under a cost profile (slow = 300µs host function in every map/accept closure: switch at element 12; slowFirst / fastFirst: the switch is decided against the later cost) x GOMAXPROCS in {1,2,4,16} and compared with the same pipeline under the all-fast profile; a race report, a crash, a hang or a different outcome is a violation; non-trivial = distinct pipeline in which a parallel stage actually switched (>1 goroutine executed the slow host function) and that has a closure-calling stage besides it"
+	c.rule = "pipelines numbers(N) -> 1..6 lazy stages (map, accept, combine, combine3, combineN, iir, iirCombine, number, compact, merge, top, skip, fsm, + concatenation; closures with local lets) -> terminal (reduce, mapReduce, sum, size, string, first/top, last, minMax, visit, order, groupByInt, multiUse), N in 0..2000, evaluated in a -race worker under a cost profile (slow = 300µs host function in every map/accept closure: switch at element 12; slowFirst / fastFirst: the switch is decided against the later cost) x GOMAXPROCS in {1,2,4,16} and compared with the same pipeline under the all-fast profile; plus forced arrival orders (host function gate: the results of the 2..15 items behind the switch arrive in a prescribed permutation, with a failing or rejected item and a consumer stopping anywhere); plus multiUse with consumers returning results of 20 shapes (lazy lists inside maps and lists at any position, failing elements) against the direct application of the consumers; a race report, a crash, a hang or a different outcome is a violation; non-trivial = distinct pipeline in which a parallel stage actually switched (>1 goroutine executed the slow host function) and that has a closure-calling stage besides it"
 	c.assume = append(c.assume, "data-race freedom and real scheduling are runtime behaviour: decided by the Go race detector on the explored schedules, not proved; the iterator library is modelled (collector, stack ownership), not verified")
 	n := c.Pick(500, 4000)
 	profiles := []string{"slow", "slow", "slowFirst", "fastFirst"}
@@ -170,10 +184,10 @@ func runC06(c *Ctx) {
 		"numbers(500).iir(e -> e, (e, l) -> let h = l % 1000; h + e).map(e -> @C(e)).multiUse({s: l -> l.mapReduce(0, (s, e) -> (s + e) % 1000003), n: l -> l.size()}).string().len()",
 	}
 	mk := func(id int, body string, profile string, gmp int, par bool, sides int) {
-		fastSrc := strings.ReplaceAll(body, "@C", "quick")
+		fastSrc := strings.ReplaceAll(strings.ReplaceAll(body, "@C", "quick"), "@B", "quick")
 		var profSrc string
 		if strings.Contains(body, "@C") {
-			profSrc = strings.ReplaceAll(body, "@C", "slow")
+			profSrc = strings.ReplaceAll(strings.ReplaceAll(body, "@C", "slow"), "@B", "barrier")
 		} else {
 			profSrc = body
 		}
@@ -232,6 +246,85 @@ func runC06(c *Ctx) {
 		fastCases = append(fastCases, pc.fast)
 		profCases = append(profCases, pc.prof)
 	}
+	// forced arrival orders: the closure of ONE parallel stage returns in a prescribed permutation of the items
+	// behind the switch (host function gate), with a failing / rejected item somewhere and a consumer that stops
+	// somewhere: the schedules of `P2.ParStage` (dispatch everything, results arrive in any order) on the real code
+	nForced := c.Pick(150, 1500)
+	for i := 0; i < nForced; i++ {
+		w := 2 + c.rng.Intn(14)
+		total := 12 + w
+		perm := c.rng.Perm(w)
+		order := make([]string, w)
+		for j, x := range perm {
+			order[j] = itoa(12 + x)
+		}
+		if c.rng.Intn(4) == 0 { // the classic: everything arrives in reverse
+			for j := range order {
+				order[j] = itoa(12 + w - 1 - j)
+			}
+		}
+		bad := 12 + c.rng.Intn(w)
+		var stage string
+		switch c.rng.Intn(6) {
+		case 0:
+			stage = fmt.Sprintf(".map(e -> if e = %d then throw(\"x\") else @G(e))", bad)
+		case 1:
+			stage = fmt.Sprintf(".map(e -> if e = %d then [1][e] else @G(e) * 2)", bad)
+		case 2:
+			stage = fmt.Sprintf(".accept(e -> if e = %d then throw(\"x\") else @G(e) %% 3 != 1)", bad)
+		case 3:
+			stage = fmt.Sprintf(".accept(e -> @G(e) != %d)", bad)
+		case 4:
+			stage = fmt.Sprintf(".map(e -> if e >= %d then throw(\"x\" + e) else @G(e))", bad)
+		default:
+			stage = ".map(e -> @G(e) + 1)"
+		}
+		k := c.rng.Intn(total + 1)
+		term := []string{fmt.Sprintf(".top(%d).size()", k), fmt.Sprintf(".top(%d).sum()", k), ".first()", fmt.Sprintf(".indexWhere(e -> e = %d)", k), ".string()",
+			fmt.Sprintf(".skip(%d).first()", k), ".sum()", fmt.Sprintf(".top(%d).string()", k), fmt.Sprintf(".present(e -> e = %d)", k),
+			fmt.Sprintf(".map(e -> e + 1).top(%d).string()", k), fmt.Sprintf(".combine((p, q) -> p + q).top(%d).sum()", k)}[c.rng.Intn(11)]
+		body := fmt.Sprintf("numbers(%d)", total) + stage + term
+		id := len(corpus) + n + i
+		pc := &pipeCase{profile: "forced-order", gmp: []int{16, 4}[c.rng.Intn(2)], par: true, sides: 1}
+		pc.fast = &workerCase{id: fmt.Sprintf("f%d", id), a: 0, flags: "opt", src: strings.ReplaceAll(body, "@G", "quick")}
+		pc.prof = &workerCase{id: fmt.Sprintf("p%d", id), a: 0, flags: "opt;sched=12:" + strings.Join(order, ","), src: strings.ReplaceAll(body, "@G", "gate")}
+		pcs = append(pcs, pc)
+		fastCases = append(fastCases, pc.fast)
+		profCases = append(profCases, pc.prof)
+		c.Count("profile:forced-order")
+	}
+	// multiUse = the consumers applied to the list one after the other: results of every shape (scalars, lazy lists,
+	// maps and lists holding lazy lists in any position, nested, failing elements in any entry)
+	shapes := []string{"l.sum()", "l.size()", "l.map(e -> e + 1)", "l.accept(e -> e % 2 = 0)", "l.combine((p, q) -> p + q)", "l.top(3)", "{n: 0, m: l.map(e -> e + 1)}",
+		"{a: l.top(2), b: l.skip(1).map(e -> e * 2)}", "{x: {y: [l.map(e -> e + 1)]}}", "[1, l.map(e -> e + 1), l.accept(e -> e > 2)]", "{n: 0, m: l.map(e -> if e = 3 then throw(\"x\") else e)}",
+		"{m: l.map(e -> if e = 3 then throw(\"x\") else e), n: 0}", "{m: l.map(e -> if e = 3 then throw(\"x\") else e), k: l.map(e -> e + 1)}", "[l.top(1), [l.iir(e -> e, (e, p) -> e + p)], {z: l.number((n, e) -> n * e)}]",
+		"l.first()", "{p: 1, q: 2, r: l.reverse(), s: l.map(e -> 0 - e)}", "l.map(e -> [e, l.size()])", "{e: [], f: l.size()}", "[[], l.top(2)]", "l.map(e -> @C(e))"}
+	nMulti := c.Pick(60, 600)
+	for i := 0; i < nMulti; i++ {
+		pick := func() string { return shapes[c.rng.Intn(len(shapes))] }
+		f1, f2, f3 := pick(), pick(), pick()
+		if i < len(shapes) {
+			f1 = shapes[i]
+		}
+		srcList := []string{"numbers(6)", "numbers(40).map(e -> e + 1)", "[5, 3, 1]", "numbers(30).accept(e -> e % 3 != 0)", "numbers(5).map(e -> e * 2).eval()"}[c.rng.Intn(5)]
+		multi := fmt.Sprintf("let r = %s.multiUse({a: l -> %s, b: l -> %s, c: l -> %s}); [r.a.string(), r.b.string(), r.c.string()].string()", srcList, f1, f2, f3)
+		direct := fmt.Sprintf("let l = %s; [(%s).string(), (%s).string(), (%s).string()].string()", srcList, f1, f2, f3)
+		id := len(corpus) + n + nForced + i
+		pc := &pipeCase{profile: "multiUse-vs-direct", gmp: []int{16, 4, 2}[c.rng.Intn(3)], par: true, sides: 1}
+		pc.fast = &workerCase{id: fmt.Sprintf("f%d", id), a: 0, flags: "opt", src: strings.ReplaceAll(direct, "@C", "quick")}
+		pc.prof = &workerCase{id: fmt.Sprintf("p%d", id), a: 0, flags: "opt", src: strings.ReplaceAll(multi, "@C", "slow")}
+		pc.multi = true
+		// a consumer may use its list once: a second use is an error (never a silently empty list)
+		for _, f := range []string{f1, f2, f3} {
+			if strings.Count(f, "l.")+strings.Count(f, "l)") > 1 {
+				pc.multiMisuse = true
+			}
+		}
+		pcs = append(pcs, pc)
+		fastCases = append(fastCases, pc.fast)
+		profCases = append(profCases, pc.prof)
+		c.Count("profile:multiUse-vs-direct")
+	}
 	if dump := os.Getenv("VERIF_DEBUG_DUMP"); dump != "" {
 		var b strings.Builder
 		for _, pc := range pcs {
@@ -253,7 +346,7 @@ func runC06(c *Ctx) {
 	}
 	switched := 0
 	for _, pc := range pcs {
-		nontriv := pc.prof.goroutines > 1 && pc.sides > 0
+		nontriv := (pc.prof.goroutines > 1 || pc.multi) && pc.sides > 0
 		if pc.prof.goroutines > 1 {
 			switched++
 		}
@@ -263,7 +356,7 @@ func runC06(c *Ctx) {
 			c.Sample(map[string]any{"pipeline": pc.prof.src, "profile": pc.profile, "GOMAXPROCS": pc.gmp, "outcome": trunc(pc.prof.outcome, 80), "goroutines_running_the_stage": pc.prof.goroutines})
 		}
 		replay := map[string]any{"program": pc.prof.src, "sequential_program": pc.fast.src, "profile": pc.profile, "GOMAXPROCS": pc.gmp,
-			"outcome": trunc(pc.prof.outcome, 300), "sequential_outcome": trunc(pc.fast.outcome, 300), "goroutines": pc.prof.goroutines}
+			"flags": pc.prof.flags, "outcome": trunc(pc.prof.outcome, 300), "sequential_outcome": trunc(pc.fast.outcome, 300), "goroutines": pc.prof.goroutines}
 		if pc.prof.stderr != "" {
 			replay["stderr_head"] = firstLines(pc.prof.stderr, 25)
 		}
@@ -276,8 +369,24 @@ func runC06(c *Ctx) {
 			c.Violation("hang", "evaluation did not return", replay)
 		case strings.HasPrefix(pc.prof.outcome, "PANIC"):
 			c.Violation("panic-escaped", "a Go panic escaped Eval", replay)
+		case pc.multiMisuse:
+			// (a first use that materialises the list makes a second use legal)
+			if pc.prof.outcome != "ERR" && pc.prof.outcome != pc.fast.outcome {
+				c.Violation("multiUse-second-use-not-reported", "a multiUse consumer used its list twice and multiUse answered neither with an error nor with the result of the direct application", replay)
+			}
 		case pc.prof.outcome != pc.fast.outcome:
 			c.disagree++
+			if strings.HasPrefix(pc.prof.outcome, "OK s") && strings.HasPrefix(pc.fast.outcome, "OK s") {
+				a, b := fromCps(pc.prof.outcome[4:]), fromCps(pc.fast.outcome[4:])
+				k := 0
+				for k < len(a) && k < len(b) && a[k] == b[k] {
+					k++
+				}
+				lo := max(0, k-40)
+				replay["first_difference_at"] = k
+				replay["outcome_around_difference"] = a[lo:min(len(a), k+60)]
+				replay["sequential_around_difference"] = b[lo:min(len(b), k+60)]
+			}
 			c.Violation("parallel-differs-from-sequential", "the outcome depends on the execution profile", replay)
 		}
 	}
@@ -298,5 +407,35 @@ func init() {
 		"numbers(1000).map(e -> if @C(e) = 20 then throw(\"x\") else e).combine((p, q) -> p * 2 + q).map(e -> @C(e) * 2).sum()",
 		"numbers(1000).map(e -> if @C(e) = 20 then throw(\"x\") else e).combine3((p, q, r) -> p * 2 + q + r).accept(e -> @C(e) > 0).size()",
 		"numbers(1000).map(e -> if @C(e) = 20 then throw(\"x\") else e).iir(e -> e, (e, l) -> l + e).map(e -> @C(e) * 2).last()",
-		"numbers(1000).map(e -> if @C(e) = 20 then throw(\"x\") else e).skip(3).map(e -> @C(e) * 2).size()")
+		"numbers(1000).map(e -> if @C(e) = 20 then throw(\"x\") else e).skip(3).map(e -> @C(e) * 2).size()",
+		// a concatenation whose operands call closures, upstream of a parallel stage and as a merge operand
+		"(numbers(200).number((n, e) -> let u = n % 7; u + e) + numbers(200).iir(e -> e, (e, l) -> let h = l % 1000; h + e)).map(e -> let t = @C(e); t + 1).mapReduce(0, (s, e) -> let w = s + e; w % 1000003)",
+		"(numbers(150).combine((p, q) -> let d = q - p; d) + numbers(150).number((n, e) -> let u = n + e; u)).accept(e -> @C(e) % 3 != 1).reduce((p, q) -> let s = p + q; s % 1000003)",
+		"numbers(300).map(e -> @C(e)).merge(numbers(100).number((n, e) -> let u = n * 2; u + e) + numbers(100).number((n, e) -> let u = n * 3; u + e), (p, q) -> let c = p < q; c).mapReduce(0, (s, e) -> (s * 31 + e) % 1000003)",
+		// the closures of a parallel stage share values of the enclosing scope: a list with spare capacity they append
+		// to, a lazy list they materialise (first use from several workers at once), a map they derive from
+		"let base = [1, 2].append(3); numbers(200).map(e -> base.append(@C(e)).sum()).sum()",
+		"let base = numbers(5).eval(); numbers(200).map(e -> base.append(@C(e)).append(e).size() + base.size()).sum()",
+		"let base = [1, 2, 3].map(x -> x * 2).eval(); numbers(200).map(e -> base.append(@C(e)).last() + base.last()).mapReduce(0, (s, e) -> (s * 31 + e) % 1000003)",
+		"let sh = numbers(50).map(x -> x * 2); numbers(200).map(e -> sh[@C(e) % 50]).sum()",
+		"let sh = numbers(50).iir(x -> x, (x, l) -> l + x); numbers(200).map(e -> @C(e) + sh.size() + sh[e % 50]).sum()",
+		"let mm = {a: 1, b: 2}; numbers(200).map(e -> mm.put(\"k\", @C(e)).k + mm.a).sum()",
+		"let sh = numbers(30).map(x -> x + 1); numbers(200).accept(e -> sh ~ (@C(e) % 40)).size()",
+		"let sh = numbers(40).combine((p, q) -> p + q); numbers(200).map(e -> sh.top(@C(e) % 5 + 1).sum()).sum()",
+		// … first used when the stage already runs in parallel (the first twelve items are mapped sequentially)
+		"let base = [1, 2].append(3); numbers(200).map(e -> let t = @C(e); if e < 30 then t else base.append(@B(t)).sum()).sum()",
+		"let base = numbers(5).eval(); numbers(200).map(e -> let t = @C(e); if e < 30 then t else base.append(@B(t)).append(e).size() + base.size()).sum()",
+		"let base = [1, 2, 3].map(x -> x * 2).eval(); numbers(200).accept(e -> let t = @C(e); if e < 30 then true else base.append(@B(t)).last() >= 0).size()",
+		"let sh = numbers(50).map(x -> x * 2); numbers(200).map(e -> let t = @C(e); if e < 30 then t else sh[@B(t) % 50]).sum()",
+		"let sh = numbers(50).iir(x -> x, (x, l) -> l + x); numbers(200).map(e -> let t = @C(e); if e < 30 then t else @B(t) + sh.size() + sh[e % 50]).sum()",
+		"let sh = numbers(30).map(x -> x + 1); numbers(200).accept(e -> let t = @C(e); if e < 30 then true else sh ~ (@B(t) % 40)).size()",
+		// forty fresh lists with spare capacity, each appended to for the first time by workers leaving a barrier together
+		"numbers(40).map(r -> let base = [r, r].append(r); numbers(40).map(e -> let t = @C(e); if e < 20 then t else base.append(@B(t)).sum()).sum()).sum()",
+		"numbers(30).map(r -> let sh = numbers(20).map(x -> x + r); numbers(40).map(e -> let t = @C(e); if e < 20 then t else sh[@B(t) % 20]).sum()).sum()",
+		// an error behind the point where the consumer stops, inside the read-ahead of the workers
+		"numbers(100).map(e -> if e = 50 then throw(\"x\") else @C(e)).top(45).size()",
+		"numbers(100).map(e -> if e = 40 then throw(\"x\") else @C(e)).top(38).sum()",
+		"numbers(200).accept(e -> if e = 60 then throw(\"x\") else @C(e) >= 0).top(55).size()",
+		"numbers(100).map(e -> if e = 50 then throw(\"x\") else @C(e)).indexWhere(e -> e = 44)",
+		"numbers(100).map(e -> if e >= 30 & e % 7 = 0 then throw(\"x\") else @C(e)).top(34).size()")
 }
